@@ -87,9 +87,11 @@ def oracle_T(toks):
     dec = " ".join("%s %s" % (ty, show(v)) for ty, v in items) if items else "-"
     L = len(enc)
     fix = ",".join(["-" if L == 0 else "T", "K:%d:0:same" % L, "K:%d:1:same" % L])
+    # st: every stream class used through its own static type (each value as the first operand of a chain) and the
+    #     reader through the ReadStream& base: same bytes, same size prediction, same values
     # re: the same stream decoded into pre-filled destinations (stale content of equal / larger / smaller size)
     # and once more into the same objects: every destination equals the written value exactly
-    return "enc=%s calc=%d dec=%s end=%s cur=%d trunc=ok:%d fix=%s re=ok" % (hx(enc), L, dec, ends, L, L, fix)
+    return "enc=%s calc=%d dec=%s end=%s cur=%d trunc=ok:%d fix=%s re=ok st=ok" % (hx(enc), L, dec, ends, L, L, fix)
 
 
 def oracle_R(toks):
@@ -457,7 +459,7 @@ def differing(kind, a, b):
     """name of what differs between two observation lines (for grouping the reports)"""
     if kind == "T":
         fa, fb = split_T(a), split_T(b)
-        ks = [k for k in ("raw", "enc", "calc", "dec", "end", "cur", "trunc", "fix", "re") if fa.get(k) != fb.get(k)]
+        ks = [k for k in ("raw", "enc", "calc", "dec", "end", "cur", "trunc", "fix", "re", "st") if fa.get(k) != fb.get(k)]
         return "+".join(ks) or "?"
     if kind in ("R", "F", "L"):
         sa, sb = a.split(" ; "), b.split(" ; ")
